@@ -41,3 +41,10 @@ Print Assumptions C15_add_end_prefix_refuted.
 Theorem C15_opt_not_worse : forall S obj neighbors pick k, stmt_run_descends S obj neighbors pick k.
 Proof. exact run_descends. Qed.
 Print Assumptions C15_opt_not_worse.
+
+(* "create": the greedy construction (Transition::new_fast, used by Schedule::empty and by every recompute) satisfies
+   the bookkeeping invariant for every duplicate-free vehicle list *)
+From RS Require Import TransFacts2.
+Theorem C15_new_fast_inv : stmt_new_fast_inv.
+Proof. exact new_fast_inv. Qed.
+Print Assumptions C15_new_fast_inv.
